@@ -1,49 +1,65 @@
 ------------------------------- MODULE MCLiterals -------------------------------
 (* C14: enumerate source texts of literals and export, per text, what Literals.tla says protoc
-   reads.  The text grows by appending one chunk (a sequence of character codes; in the
-   exhaustive configurations every chunk is a single character, in -simulate runs chunks are
-   whole escape sequences / digit groups so that long literals stay interesting).
-   Texts that touch a rule that is not certain are filtered HERE, inside Next, and therefore never
-   reach the driver.  Mode "str": text is the body between the delimiters q.  Mode "num": text is
-   the whole value position ([-] token), q = 0. *)
+   reads.  A run explores a set of FAMILIES at once; a family is
+     [id, mode, q, prefix, chunks, maxlen, exportmin, rand]
+   mode "str": text is the body between the delimiters q (34 or 39)
+   mode "num": text is the whole value position ([-] token), q = 0
+   The text starts as `prefix` and grows by appending one chunk (a sequence of character codes).
+   In the exhaustive configurations every chunk is a single character, so a family is "every
+   string over this alphabet of length <= maxlen that starts with prefix"; in -simulate runs
+   chunks are whole escape sequences / digit groups so that long literals stay interesting.
+   Texts that touch a rule that is not certain are filtered HERE, inside Next, and therefore
+   never reach the driver.  Families are written per tier by engines/literals.py into a small
+   module that instantiates the constant (TLC configuration files cannot hold tuples). *)
 EXTENDS Literals, TLC, Json
-CONSTANTS Mode, Chunks, Prefixes, Quotes, MaxLen, ExportMin
-VARIABLES text, q, res      \* res = Res(text, q), kept in the state so that it is computed once
-vars == <<text, q, res>>
+CONSTANTS Families
+VARIABLES fam, text, res      \* res = Res(fam, text), kept in the state so that it is computed once
+vars == <<fam, text, res>>
 
-Res(t, d) == IF Mode = "str" THEN Decode(t, d) ELSE NumDecode(t)
+Res(f, t) == IF f.mode = "str" THEN Decode(t, f.q) ELSE NumDecode(t)
 
+(* numeric value positions start with a digit, '.', or a sign (not with a letter: that is an
+   identifier, not a numeric literal) *)
 NumFirst == Dig \cup {46, 43, 45}
-Shape(t) == Mode = "num" =>
-              /\ t # <<>> => t[1] \in NumFirst
-              /\ (Len(t) >= 2 /\ t[1] = 45) => t[2] \in NumFirst
+Shape(f, t) == f.mode = "num" =>
+                 /\ t # <<>> => t[1] \in NumFirst
+                 /\ (Len(t) >= 2 /\ t[1] = 45) => t[2] \in NumFirst
 
-Init == /\ text \in Prefixes
-        /\ q \in Quotes
-        /\ res = Res(text, q)
-Next == /\ \E c \in Chunks :
+Init == /\ fam \in Families
+        /\ text = fam.prefix
+        /\ res = Res(fam, text)
+(* exhaustive families try every chunk; random families (fam.rand, used with tlc -simulate) draw one
+   chunk per step with TLC's seeded RandomElement, so a simulated behaviour is one random literal
+   growing chunk by chunk and costs one decode per step *)
+Candidates == IF fam.rand THEN {RandomElement(fam.chunks)} ELSE fam.chunks
+Next == /\ \E c \in Candidates :
              LET t == text \o c
-                 r == Res(t, q)
-             IN /\ Len(t) <= MaxLen
-                /\ Shape(t)
+                 r == Res(fam, t)
+             IN /\ Len(t) <= fam.maxlen
+                /\ Shape(fam, t)
                 /\ r.st # "uncertain"          \* the filter: uncertain rules never leave the spec
                 /\ text' = t
                 /\ res' = r
-        /\ UNCHANGED q
+        /\ UNCHANGED fam
 Spec == Init /\ [][Next]_vars
 
-Case == [m |-> Mode, q |-> q, text |-> text, r |-> res]
+Case == [fam |-> fam.id, m |-> fam.mode, q |-> fam.q, text |-> text, r |-> res]
 
-(* nothing uncertain is ever exported (also guards the Prefixes chosen in a configuration) *)
-Export == (Len(text) >= ExportMin /\ Shape(text) /\ res.st # "uncertain")
+(* nothing uncertain is ever exported (the condition also guards the prefixes of a family) *)
+Export == (Len(text) >= fam.exportmin /\ Shape(fam, text) /\ res.st # "uncertain")
              => PrintT("CASE " \o ToJson(Case))
 
 (* spec-level sanity, checked by TLC in every state:
-   - an accepted string literal never yields more than 4 bytes per source character, all bytes
-   - an accepted integer token has canonical digits (no leading zero) *)
+   Sane       an accepted string literal yields at most 4 bytes per source character, all in
+              0..255; an accepted integer token has canonical digits (no leading zero)
+   SaneDelim  reading does not depend on which delimiter is used when the body has no quote *)
 Sane ==
-    IF Mode = "str"
+    IF fam.mode = "str"
     THEN res.st = "ok" => /\ Len(res.bytes) <= 4 * Len(text)
                           /\ \A i \in 1..Len(res.bytes) : res.bytes[i] \in 0..255
     ELSE (res.st = "ok" /\ res.kind = "int") => (res.digits = <<>> \/ res.digits[1] # 0)
+SaneDelim ==
+    (fam.mode = "str" /\ \A i \in 1..Len(text) : text[i] \notin {DQ, SQ}) =>
+        LET o == Decode(text, IF fam.q = DQ THEN SQ ELSE DQ)
+        IN o.st = res.st /\ o.bytes = res.bytes
 =============================================================================
